@@ -19,7 +19,7 @@ def is_eof_at(c, p):
 
 def include_ips_header_contract(path, resolver, content):
     """A file that does not start with PATCH is rejected."""
-    ghost("file_content", content)
+    ghost("fs", {path: content})
     assume(len(content) < 5 or not (content[0] == 0x50 and content[1] == 0x41 and content[2] == 0x54 and content[3] == 0x43 and content[4] == 0x48))
     try:
         node = IncludeIpsNode(path, resolver, None)
@@ -31,7 +31,7 @@ def include_ips_header_contract(path, resolver, content):
 def include_ips_exact_contract(path, resolver, delta_expr, delta, content):
     """Whole-file postcondition for files of zero, one or two records (reader loop unrolled on the real code; every record
     kind, size, offset and signed delta symbolic): blocks == the records in order, offsets shifted by delta, run-length records expanded."""
-    ghost("file_content", content)
+    ghost("fs", {path: content})
     n = len(content)
     assume(n >= 8 and content[0] == 0x50 and content[1] == 0x41 and content[2] == 0x54 and content[3] == 0x43 and content[4] == 0x48)
     p = 5
@@ -64,7 +64,7 @@ def include_ips_exact_contract(path, resolver, delta_expr, delta, content):
 def include_ips_any_contract(path, resolver, delta_expr, delta, content):
     """Reader loop for any number of records: loop contract in vf/props/C13.py (step: one record consumed and appended,
     or the end marker detected, or a truncated file rejected)."""
-    ghost("file_content", content)
+    ghost("fs", {path: content})
     ghost("delta", delta)
     try:
         node = IncludeIpsNode(path, resolver, delta_expr)
